@@ -107,7 +107,7 @@ func (ro *Roles) reloadModset(r *Report, rule string) {
 		return
 	}
 	fn := ro.Replace
-	res := w.EnumPaths(fn, EnumOpts{Inline: true})
+	res := w.EnumPaths(fn, EnumOpts{Inline: true, Opaque: w.statelessCallee})
 	ok := len(res.Paths) > 0
 	detail := ""
 	stored := false
